@@ -27,6 +27,12 @@ type Job struct {
 	MaxSteps    int
 	Limit       time.Duration
 	Bounds      string // human-readable bound description
+	MaxTimerFires int
+	ConcreteClock bool
+	ManualTimers bool
+	SolverTimeoutMs int
+	SolverKind string
+	SolverFallback bool
 	BudgetViolation bool // an exhausted instruction budget is a violation (loop without progress), not inconclusive
 }
 
@@ -90,7 +96,7 @@ func RunJob(l *Loaded, job *Job, tweak func(*sym.Config)) (res *JobResult) {
 		res.Incon = append(res.Incon, "harness not found: "+job.Func+" in "+pkgPath(job.Pkg))
 		return
 	}
-	cfg := sym.Config{BudgetViolation: job.BudgetViolation, VrtPath: VrtPath, ModulePrefix: ModulePath, Race: job.Race, SpinCut: job.SpinCut, MaxSteps: job.MaxSteps}
+	cfg := sym.Config{ConcreteClock: job.ConcreteClock, ManualTimers: job.ManualTimers, SolverKind: job.SolverKind, SolverTimeoutMs: job.SolverTimeoutMs, SolverFallback: job.SolverFallback, MaxTimerFires: job.MaxTimerFires, BudgetViolation: job.BudgetViolation, VrtPath: VrtPath, ModulePrefix: ModulePath, Race: job.Race, SpinCut: job.SpinCut, MaxSteps: job.MaxSteps}
 	if job.Limit > 0 {
 		cfg.Deadline = start.Add(job.Limit)
 	}
